@@ -142,6 +142,32 @@ func (versionStream) Generate(rng *rand.Rand, tier string, emit func(Case)) {
 		}
 	}
 	featVariant = 0
+	// one Spec object evaluated, edited in place, evaluated again: every ordered pair of features at every placement
+	// of a two-device Spec (the answer belongs to the current content)
+	for f := -1; f < nFeatures; f++ {
+		for g := -1; g < nFeatures; g++ {
+			for where := -1; where < 2; where++ {
+				if f == g || f == fDigitName || g == fDigitName || f == fDottedClass || g == fDottedClass {
+					continue // keep kind and device names: the object keeps its identity
+				}
+				pre, fin := baseSpec(2), baseSpec(2)
+				if f >= 0 {
+					placeFeature(pre, f, where)
+				}
+				if g >= 0 {
+					placeFeature(fin, g, (where+2)%3-1)
+				}
+				emit(Case{"op": "minver", "spec": specToProto(fin), "pre": specToProto(pre)})
+				for _, v := range []string{"0.3.0", "0.5.0", "0.6.0", "0.7.0", "0.8.0"} {
+					c := *fin
+					c.Version = v
+					p := *pre
+					p.Version = v
+					emit(Case{"op": "validver", "spec": specToProto(&c), "pre": specToProto(&p)})
+				}
+			}
+		}
+	}
 	// the same Specs blown up to thousands of devices and evaluated by many goroutines at once (three cases)
 	for _, fw := range [][2]int{{fMountType, 1}, {fHostPath, -1}, {-1, 0}} {
 		s := baseSpec(3)
@@ -290,6 +316,15 @@ func (versionStream) Execute(c Case) {
 	if s == nil {
 		obs["panic"] = true
 		return
+	}
+	if pre := protoToSpec(c["pre"]); pre != nil {
+		// the Spec object is first evaluated in an earlier state, then edited in place (same object, same kind, same
+		// number of devices) into the state the case describes
+		final := *s
+		s = pre
+		_, _ = specs.MinimumRequiredVersion(s)
+		_ = specs.ValidateVersion(s)
+		*s = final
 	}
 	if w, ok := c["emptyann"]; ok {
 		if i := kindIdx(w); i < 0 {
